@@ -43,9 +43,10 @@ type Consensus struct {
 	baseOp    *LogOp
 	raft      *raftWrapper
 
-	rpcClient *rpc.Client
-	rpcReady  chan struct{}
-	readyCh   chan struct{}
+	rpcClientMux sync.RWMutex
+	rpcClient    *rpc.Client
+	rpcReady     chan struct{}
+	readyCh      chan struct{}
 
 	shutdownLock sync.RWMutex
 	shutdown     bool
@@ -215,8 +216,18 @@ func (cc *Consensus) Shutdown(ctx context.Context) error {
 
 // SetClient makes the component ready to perform RPC requets
 func (cc *Consensus) SetClient(c *rpc.Client) {
+	cc.rpcClientMux.Lock()
 	cc.rpcClient = c
+	cc.rpcClientMux.Unlock()
 	cc.rpcReady <- struct{}{}
+}
+
+// getRPCClient returns the RPC client, or nil when it has not been set yet:
+// Raft may apply log entries (on another goroutine) before SetClient is called.
+func (cc *Consensus) getRPCClient() *rpc.Client {
+	cc.rpcClientMux.RLock()
+	defer cc.rpcClientMux.RUnlock()
+	return cc.rpcClient
 }
 
 // Ready returns a channel which is signaled when the Consensus
